@@ -341,9 +341,10 @@ def loop_counts_exact(ctx, spec, rule='L1', only=None, floor=10):
                     continue
                 seen.add(it[2])
                 n += 1
-                calls = sorted({x[1] for x in walk(it[2]) if isinstance(x, tuple) and x[0] == 'call' and not x[1].startswith(LOOP_CALLS_OK)})
+                cnt = q.expand(it[2], fx, 3, noinl(fx))        # see through crate-local helpers that merely hand the field on
+                calls = sorted({x[1] for x in walk(cnt) if isinstance(x, tuple) and x[0] == 'call' and not x[1].startswith(LOOP_CALLS_OK)})
                 allowed = LOOP_CONSTS.get(fn, (set(), ''))[0] | {0, 1}
-                consts = sorted(set(schedule.consts_in(it[2])) - allowed)
+                consts = sorted(set(schedule.consts_in(cnt)) - allowed)
                 ok = not calls and not consts
                 ctx.inst(rule, fn.split('asefile::')[-1] + '#count', ok, 'repeat count %s: %s' % (show(it[2])[:120], 'the declared field(s), unclamped' if ok else
                          'passes through %s / constants %s - entries beyond the altered count would be dropped or invented' % (
